@@ -167,7 +167,8 @@ func (w *websocket) send(packets []*packet.Packet) {
 					}
 					return
 				}
-				return
+				// the pre-encoded frame has been written: go on with the rest of the batch
+				continue
 
 			}
 		}
